@@ -6,7 +6,14 @@
  * c03_regprobe) and into a 16 KiB stack array, call a switching API (yield, mutex under
  * contention, create+join, cond_wait ping-pong, barrier) and compare on return.  rsp alignment is
  * sampled at every "cb.enter" event (the MYTH_VERIF hook inside each context-switch callback, which
- * runs on the TARGET stack) and at thread entry.  One line of output:
+ * runs on the TARGET stack) and at thread entry.
+ * Hint phase (first): threads created with attr.custom_data_size in {16,24,100,512}, child-first and
+ * parent-first; each fills a stack array, checks the hint copied at creation, suspends; the main thread
+ * overwrites the hint through myth_wsapi_get_hint_ptr (and swaps it out and back with myth_wsapi_set_hint);
+ * the thread verifies its locals and the new hint contents.  The layout (stack top from the "alloc.stack"
+ * event, hint region, initial rsp read from the context at the "create.start" event) is printed as a
+ * `hint ...` line per thread; an overlap of hint region and initial frames is reported with the byte range.
+ * Last line of output:
  *   ok|FAIL threads=.. ops=.. switches_cb=.. migrations=.. reg_bad=.. stack_bad=.. cb_misaligned=.. entry_misaligned=.. first=<description>
  */
 #include <stdio.h>
@@ -14,13 +21,19 @@
 #include <stdint.h>
 #include <string.h>
 #include <myth/myth.h>
+#include "myth_config.h"
 #include "myth_verif.h"
+#include "myth_thread.h"      /* struct myth_thread: context.rsp is read at the "create.start" event */
 
 #define NWORDS 2048            /* 16 KiB of stack per probe thread */
 #define CHILD_WORDS 256
 
 static long g_cb_enter, g_cb_misaligned, g_entry, g_entry_misaligned;
 static long g_reg_bad, g_stack_bad, g_ops, g_migr, g_children;
+static long g_hint_cases, g_hint_overlap, g_hint_bad, g_hint_local_bad;
+static volatile uintptr_t g_last_stk;
+static struct { const void *th; uintptr_t rsp; } g_init_rsp[64];
+static int g_init_n;
 static char g_first[256];
 static int g_first_set;
 
@@ -32,7 +45,13 @@ static void note_first(const char *what, int tid, int op, long idx, uint64_t exp
 
 /* the hook: called from inside the library (possibly on a stack that is being switched to) */
 static void hook(int kind, const char *id, const void *obj, long val) {
-  (void)obj; (void)val;
+  if (kind == MYTH_VERIF_KIND_EVENT && id[0] == 'a' && !strcmp(id, "alloc.stack")) g_last_stk = (uintptr_t)obj;
+  if (kind == MYTH_VERIF_KIND_EVENT && id[0] == 'c' && id[1] == 'r' && !strcmp(id, "create.start")) {
+    /* the new thread has just been entered and has not been suspended yet: context.rsp is the initial one */
+    int k = __sync_fetch_and_add(&g_init_n, 1) % 64;
+    g_init_rsp[k].rsp = (uintptr_t)((const struct myth_thread *)obj)->context.rsp;
+    g_init_rsp[k].th = obj;
+  }
   if (kind == MYTH_VERIF_KIND_EVENT && id[0] == 'c' && id[1] == 'b' && id[3] == 'e') {   /* "cb.enter" */
     /* this function is compiled with a frame pointer: rbp = rsp at entry - 8; the ABI requires
        rsp at entry = 8 mod 16, which holds iff every caller up to the callback was entered aligned */
@@ -137,6 +156,83 @@ static void do_op(void *a) {
   }
 }
 
+
+/* ---------------- hint (custom data) phase ---------------- */
+#define HWORDS 512
+typedef struct { volatile int ready, go; int child_first; size_t size; unsigned char a, b; long bad0, bad1, lbad; uintptr_t frame; } hctl_t;
+
+static void *hint_victim(void *arg) {
+  hctl_t *c = (hctl_t *)arg;
+  volatile uint64_t arr[HWORDS];
+  unsigned char *h;
+  long i;
+  for (i = 0; i < HWORDS; i++) arr[i] = mix(0xABCD0000ull + c->size * 1024 + i);
+  c->frame = (uintptr_t)__builtin_frame_address(0);
+  h = (unsigned char *)myth_wsapi_get_hint_ptr(0);
+  if (myth_wsapi_get_hint_size(0) != c->size) c->bad0 += 1000000;
+  for (i = 0; i < (long)c->size; i++) c->bad0 += (h[i] != c->a);       /* own frames must not have clobbered it */
+  c->ready = 1;
+  while (!c->go) myth_yield();
+  for (i = 0; i < HWORDS; i++) c->lbad += (arr[i] != mix(0xABCD0000ull + c->size * 1024 + i));
+  h = (unsigned char *)myth_wsapi_get_hint_ptr(0);
+  for (i = 0; i < (long)c->size; i++) c->bad1 += (h[i] != c->b);
+  return 0;
+}
+
+static void hint_phase(void) {
+  static const size_t sizes[] = {16, 24, 100, 512};
+  int order, k, j;
+  for (order = 1; order >= 0; order--)
+    for (k = 0; k < 4; k++) {
+      hctl_t c;
+      myth_thread_attr_t attr;
+      myth_thread_t th;
+      unsigned char buf[512], other[512];
+      unsigned char *h;
+      uintptr_t stk, rsp0 = 0, lo, hi, ohi;
+      size_t size = sizes[k], i;
+      memset(&c, 0, sizeof c);
+      c.child_first = order; c.size = size; c.a = (unsigned char)(0x5A + k); c.b = (unsigned char)(0xA5 - k);
+      memset(buf, c.a, sizeof buf);
+      myth_thread_attr_init(&attr);
+      attr.child_first = order; attr.custom_data = buf; attr.custom_data_size = size;
+      myth_create_ex(&th, &attr, hint_victim, &c);
+      stk = g_last_stk;
+      while (!c.ready) myth_yield();
+      for (j = 0; j < 64; j++) if (g_init_rsp[j].th == (const void *)th) rsp0 = g_init_rsp[j].rsp;
+      h = (unsigned char *)myth_wsapi_get_hint_ptr(th);
+      lo = (uintptr_t)h; hi = lo + size;
+      ohi = rsp0 + (order ? 0 : 8);            /* parent-first: the word at the initial rsp holds the entry address */
+      if (ohi > hi) ohi = hi;
+      __sync_fetch_and_add(&g_hint_cases, 1);
+      printf("hint order=%s size=%zu stk_minus_hint=%ld stk_minus_rsp0=%ld hint_mod16=%ld frame_below_hint=%d overlap=%ld",
+             order ? "child" : "parent", size, (long)(stk - lo), (long)(stk - rsp0), (long)(lo % 16), c.frame < lo,
+             lo < ohi ? (long)(ohi - lo) : 0L);
+      if (lo < ohi) {
+        printf(" overlap_bytes=[hint+0,hint+%ld) = [rsp0%+ld,rsp0%+ld) own_frames_clobbered_hint=%ld\n",
+               (long)(ohi - lo), (long)lo - (long)rsp0, (long)ohi - (long)rsp0, c.bad0);
+        fflush(stdout);
+        __sync_fetch_and_add(&g_hint_overlap, 1);
+        note_first("hint region overlaps the initial frames of its thread (index = bytes)", order, (int)size, (long)(ohi - lo), rsp0, lo);
+        /* do not write into the thread's frames: it could not be resumed */
+      } else {
+        printf("\n");
+        for (i = 0; i < size; i++) h[i] = c.b;                 /* update through the public pointer */
+        if (k & 1) {                                           /* swap the hint out and back in */
+          void *d = other; size_t s = sizeof other;
+          myth_wsapi_set_hint(th, &d, &s);
+          if (d != (void *)h || s != size) c.bad1 += 1000000;
+          myth_wsapi_set_hint(th, &d, &s);
+        }
+      }
+      c.b = (lo < ohi) ? c.a : c.b;
+      c.go = 1;
+      myth_join(th, 0);
+      if (c.bad0 || c.bad1) { __sync_fetch_and_add(&g_hint_bad, 1); note_first("hint contents wrong (index: 0 at entry, 1 after update)", order, (int)size, c.bad0 ? 0 : 1, 0, c.bad0 ? c.bad0 : c.bad1); }
+      if (c.lbad) { __sync_fetch_and_add(&g_hint_local_bad, 1); note_first("locals of a suspended thread changed by a hint update (index = words)", order, (int)size, c.lbad, 0, 0); }
+    }
+}
+
 static void *probe(void *a) {
   int tid = (int)(intptr_t)a;
   volatile uint64_t arr[NWORDS];
@@ -181,6 +277,7 @@ int main(int argc, char **argv) {
   if (g_n < 1) g_n = 1;
   g_myth_verif_cb = hook;
   myth_init();
+  hint_phase();
   myth_mutex_init(&g_mtx, 0);
   myth_barrier_init(&g_bar, 0, g_n);
   g_pairs = calloc((g_n + 1) / 2, sizeof(pair_t));
@@ -190,10 +287,11 @@ int main(int argc, char **argv) {
   for (i = 0; i < g_n; i++) myth_join(th[i], 0);
   g_myth_verif_cb = 0;
   {
-    int bad = g_reg_bad || g_stack_bad || g_cb_misaligned || g_entry_misaligned;
-    printf("%s threads=%d ops=%ld children=%ld switches_cb=%ld entries=%ld migrations=%ld reg_bad=%ld stack_bad=%ld cb_misaligned=%ld entry_misaligned=%ld first=%s\n",
+    int bad = g_reg_bad || g_stack_bad || g_cb_misaligned || g_entry_misaligned || g_hint_overlap || g_hint_bad || g_hint_local_bad;
+    printf("%s threads=%d ops=%ld children=%ld switches_cb=%ld entries=%ld migrations=%ld reg_bad=%ld stack_bad=%ld cb_misaligned=%ld entry_misaligned=%ld hint_cases=%ld hint_overlap=%ld hint_bad=%ld hint_local_bad=%ld first=%s\n",
            bad ? "FAIL" : "ok", g_n, g_ops, g_children, g_cb_enter, g_entry, g_migr, g_reg_bad, g_stack_bad,
-           g_cb_misaligned, g_entry_misaligned, g_first_set ? g_first : "-");
+           g_cb_misaligned, g_entry_misaligned, g_hint_cases, g_hint_overlap, g_hint_bad, g_hint_local_bad,
+           g_first_set ? g_first : "-");
     fflush(stdout);
     myth_fini();
     return bad ? 1 : 0;
